@@ -435,6 +435,9 @@ class TransferFrame:
             # as specified by the standard on page p.161
             if frame_type != FrameType.VARIABLE:
                 raise UslpTruncatedFrameNotAllowed
+            # The truncated frame length is a managed parameter of variable frames only
+            if not isinstance(frame_properties, VarFrameProperties):
+                raise ValueError
             frame.header = TruncatedPrimaryHeader.unpack(raw_packet=raw_frame)
         else:
             frame.header = PrimaryHeader.unpack(raw_packet=raw_frame)
